@@ -270,20 +270,18 @@ def _raising_tests(E: Engine, f) -> list[ast.AST]:
 
 
 def _declare_rules(E: Engine, rep: Report) -> None:
+    from .symutil import S as _Sd, raises_when as _rw
+
     dc = E.method(SEQ, "declare_channel")
-    tests = [norm(t) for t in _raising_tests(E, dc)]
-    # name in self._schedule -> reject
-    has_name = any(_is_membership(t, "name", ("self._schedule",), False) for t in _raising_tests(E, dc))
-    rep.check(has_name, "DECLARE", "declare_channel|name-in-use", "rejects a channel name already in the schedule", f"declare_channel no longer rejects a name already in use (raising tests: {tests})", E.where(dc))
-    has_avail = any(_is_membership(t, "channel_id", ("self.available_channels",), True) for t in _nested_if_tests(dc.node))
-    rep.check(has_avail, "DECLARE", "declare_channel|not-available", "rejects a channel id that is not in available_channels", "declare_channel no longer rejects an unavailable channel id", E.where(dc))
-    has_dev = any(_is_membership(t, "channel_id", ("self._device.channels", "self.device.channels"), True) for t in _raising_tests(E, dc))
-    rep.check(has_dev, "DECLARE", "declare_channel|unknown-id", "rejects a channel id the device does not have", "declare_channel no longer rejects an unknown channel id", E.where(dc))
+    Sdc = _Sd(E, dc)
+    rep.check(_rw(Sdc, "name in self._schedule"), "DECLARE", "declare_channel|name-in-use", "rejects a channel name already in the schedule", "declare_channel no longer rejects a name already in use", E.where(dc))
+    rep.check(_rw(Sdc, "channel_id not in self.available_channels"), "DECLARE", "declare_channel|not-available", "rejects a channel id that is not in available_channels", "declare_channel no longer rejects an unavailable channel id", E.where(dc))
+    rep.check(_rw(Sdc, "channel_id not in self._device.channels") or _rw(Sdc, "channel_id not in self.device.channels"), "DECLARE", "declare_channel|unknown-id", "rejects a channel id the device does not have", "declare_channel no longer rejects an unknown channel id", E.where(dc))
     # DMM side
     cdm = E.method(SEQ, "_config_detuning_map")
-    t2 = _raising_tests(E, cdm)
-    rep.check(any(_is_membership(t, "dmm_id", ("self.available_channels",), True) for t in t2), "DECLARE", "_config_detuning_map|not-available", "rejects a DMM id that is not available", "_config_detuning_map no longer rejects an unavailable DMM", E.where(cdm))
-    rep.check(any(isinstance(t, ast.Attribute) and norm(t) == "self._in_xy" for t in t2), "DECLARE", "_config_detuning_map|xy-excludes-dmm", "a DMM is refused in XY mode", "_config_detuning_map no longer refuses a DMM in XY mode", E.where(cdm))
+    Scd = _Sd(E, cdm)
+    rep.check(_rw(Scd, "dmm_id not in self.available_channels"), "DECLARE", "_config_detuning_map|not-available", "rejects a DMM id that is not available", "_config_detuning_map no longer rejects an unavailable DMM", E.where(cdm))
+    rep.check(_rw(Scd, "self._in_xy"), "DECLARE", "_config_detuning_map|xy-excludes-dmm", "a DMM is refused in XY mode", "_config_detuning_map no longer refuses a DMM in XY mode", E.where(cdm))
     # available_channels filter
     av = E.method(SEQ, "available_channels")
     from .. import sym as _symA
@@ -291,6 +289,7 @@ def _declare_rules(E: Engine, rep: Report) -> None:
 
     ok_occ = False
     ok_xy = False
+    occ_terms: list = []
     rav = _SA(E, av).ret
     for conds_, leaf_ in _brA(rav) if rav is not None else []:
         # the branch taken once a mode is chosen (the other branches list every channel of the device)
@@ -306,6 +305,7 @@ def _declare_rules(E: Engine, rep: Report) -> None:
                 m_ = _symA.match(_symA.Pattern("self._device.reusable_channels or Q_id not in Q_occ").term, x)
                 if m_ is not None and m_["Q_id"] == id_:
                     ok_occ = True
+                    occ_terms.append(m_["Q_occ"])
                 m_ = _symA.match(_symA.Pattern("(Q_ch.basis == 'XY' or QS_dmm) if self._in_xy else Q_ch.basis != 'XY'").term, x)
                 if m_ is not None and m_["Q_ch"] == ch_:
                     ok_xy = True
@@ -313,12 +313,8 @@ def _declare_rules(E: Engine, rep: Report) -> None:
     rep.check(ok_xy, "DECLARE", "available_channels|xy-split", "XY channels and non-XY channels never coexist in the available set", "available_channels no longer separates XY from non-XY channels", E.where(av))
     # a local channel needs a target first
     gi = E.method(CHS, "__getitem__")
-    ok = False
-    for t in _raising_tests(E, gi):
-        if isinstance(t, ast.BoolOp) and isinstance(t.op, ast.And) and len(t.values) == 2:
-            parts = {norm(v).replace(" ", "").replace("(", "").replace(")", "") for v in t.values}
-            if parts in ({"key==-1", "notself.slots"}, {"-1==key", "notself.slots"}, {"key==-1", "len(self.slots)==0"}):
-                ok = True
+    Sgi = _Sd(E, gi)
+    ok = _rw(Sgi, "key == -1", "not self.slots") or _rw(Sgi, "key == -1", "len(self.slots) == 0") or _rw(Sgi, "key == -1", "len(self.slots) < 1")
     rep.check(ok, "DECLARE", "_ChannelSchedule.__getitem__|needs-target", "reading the last slot of an empty (local, untargeted) channel is rejected", "an empty channel no longer rejects access to its last slot (a local channel could take a pulse before a target)", E.where(gi))
     # the EOM typestate predicate: an open block is one whose end is None (an end of 0 is a closed block)
     iem = E.method(CHS, "in_eom_mode")
@@ -334,13 +330,13 @@ def _declare_rules(E: Engine, rep: Report) -> None:
                 ok = has_nonempty and has_open and len(conj) == 2
     rep.check(ok, "DECLARE", "_ChannelSchedule.in_eom_mode|open-block-iff-tf-is-None", "in EOM mode iff there is a block and its end `is None`", "in_eom_mode() is no longer `bool(eom_blocks) and eom_blocks[-1].tf is None`: a block closed at t=0 (or another falsy end) would still count as open", E.where(iem))
     # occupied channel ids derive from declared_channels (which includes DMM/SLM configurations stored for build)
-    v = _abs(E.flow(av)).av(ast.Name(id="occupied_ch_ids", ctx=ast.Load()))
-    from .common import strip_prefixes as _sp
+    from .symutil import sh as _shA
 
-    rep.check(any(r.startswith("self.declared_channels") for r in _sp(v.roots)), "DECLARE", "available_channels|occupied-from-declared_channels", "occupied ids range over declared_channels (schedule + stored DMM/SLM configurations)", f"occupied channel ids no longer derive from declared_channels ({v.show()[:160]}): DMMs configured in a parametrized sequence would stay available", E.where(av))
+    ok_decl = bool(occ_terms) and all(_symA.contains(t_, _symA.Pattern("self.declared_channels").term) for t_ in occ_terms)
+    rep.check(ok_decl, "DECLARE", "available_channels|occupied-from-declared_channels", "occupied ids range over declared_channels (schedule + stored DMM/SLM configurations)", f"occupied channel ids no longer derive from declared_channels ({[_shA(t_, 120) for t_ in occ_terms]}): DMMs configured on a parametrized sequence (stored for build, not yet in the schedule) would stay available", E.where(av))
     # XY / ising exclusivity in the setter and declare_channel
     st = E.method(SEQ, "_in_ising", kind="setter")
-    ok = any(norm(t) == "self._in_xy" for t in _raising_tests(E, st))
+    ok = _rw(_Sd(E, st), "self._in_xy")
     rep.check(ok, "DECLARE", "_in_ising.setter|rejects-xy", "Ising mode is refused while in XY mode", "_in_ising setter no longer rejects when the sequence is in XY mode", E.where(st))
 
 
